@@ -52,8 +52,14 @@ package allocate
 // C06/C03: "Every such eviction/bind is committed together ...": stmt.Commit() is reached only with the statement
 // of a successful attempt (preconditions of Commit, proved at the call site from attemptToAllocateJob
 // [successIsCommittable]); after a failed attempt the statement is discarded (precondition of Discard: well-formed
-// log, [logStaysWellFormed]) and nothing is committed. setLastStartTimestamp and PushJob get a non-nil job.
-// C10: no panic on any path (a non-empty order yields a job; ssn.Statement() is a fresh statement).
+// log, [failedIsDiscardable]) and nothing is committed. setLastStartTimestamp and PushJob get a non-nil job.
+// C05 "After the allocate action of a cycle no ready pending workload remains ...": the action ends only when the job order
+// is empty - every queued job was popped and attempted ([orderDrained]; a failed attempt does not stop the loop).
+// C10: no panic on any path (a non-empty order yields a job; ssn.Statement() is a fresh statement; the queue of the
+// re-pushed job is known: PopNextJob [poppedQueueKnown], carried across the attempt and the commit by the stable session
+// skeleton - precondition [queueKnown] of PushJob).
+// Not stated (no per-iteration postcondition exists for a loop body): "setLastStartTimestamp exactly when the job became
+// fully allocated in this cycle", and "a statement that is neither committed nor discarded is never dropped".
 //@ func (*allocateAction).Execute
 //@   props C05 C06 C03 C16 C10
 //@   usestable Session.ClusterInfo JobsOrderByQueues.ssn ClusterInfo.Queues map[common_info.QueueID]*queue_info.QueueInfo PodGroupInfo.Queue
